@@ -12,6 +12,7 @@ import (
 	"fmt"
 	"io"
 	"math"
+	mrand "math/rand"
 	"os"
 	"os/exec"
 	"reflect"
@@ -132,6 +133,16 @@ func wsOptHash(c string) *bitcoin.Hash32 {
 }
 
 // wsGen builds the message of a type code and value class (code 0: the stored transaction record).
+// The dependency's mock merkle proofs draw from math/rand (position of the txid in the block, sibling hashes): seeded from VERIF_SEED so
+// that a run - and its child processes, which rebuild the same inputs - is reproducible.
+func init() {
+	seed := int64(1)
+	if v, err := strconv.Atoi(os.Getenv("VERIF_SEED")); err == nil {
+		seed = int64(v)
+	}
+	mrand.Seed(seed)
+}
+
 func wsGen(t uint64, c string) client.MessagePayload {
 	n := wsN(c)
 	u32s := func() []uint32 {
